@@ -1,66 +1,96 @@
 // C07 deterministic witness: a notification registered AFTER a new dispatch_group_enter is submitted while that
 // enter is still outstanding, because a dispatch_group_leave of the previous generation is between its atomic add
 // (count -> 0) and its snapshot of the notify list.
-// The DISPATCH_VERIF callback is used only to hold the leaving thread at that point (after the add on dg_state).
+// The DISPATCH_VERIF callback is used to hold the leaving thread at that point (after the add on dg_state) and, as in
+// harness/c07_group.c, to record the run: the output has the format of one round (round 0) of c07_group, so that
+// lib/props/c07.py judges it with the same oracle and decides "known defect" the same way (the round must replay on the
+// global model and the model run itself must submit that notification early), not by the EARLY token.
 // usage: c07_early [variant]   variant 0: list already non-empty (notification A pending), B pushed behind it
 //                              variant 1: only a waiter's HAS_WAITERS bit is pending; B is the first pusher
-// prints "EARLY <variant> <0|1>" (1 = block B ran while the enter made before registering it had not left) and details.
-#include <dispatch/dispatch.h>
-#include <pthread.h>
-#include <stdio.h>
-#include <stdlib.h>
-#include <stdint.h>
-#include <unistd.h>
-#include <stdatomic.h>
+// prints "R 0 9 3", "EARLY <variant> <0|1>" (1 = block B ran while the enter made before registering it had not left),
+// "Q 0 <dg_state> <registered>", then the recorder dump.
+#include "internal.h"
+#include "dv_record.h"
 
-typedef void (*dispatch_verif_cb_t)(const volatile void *addr, unsigned size, int kind, int order,
-		unsigned long long a, unsigned long long b, int ok, const char *file, int line);
-extern dispatch_verif_cb_t volatile _dispatch_verif_cb;
-enum { DV_ADD = 6 };
-
+enum { OP_ENTER = 1, OP_LEAVE = 2, OP_WAIT = 3, OP_NOTIFY = 4 };
 static __thread int in_leave;
 static _Atomic int l_added, b_registered, a_ran, b_ran, left_e;
 static _Atomic int b_ran_before_leave = -1;
+static dispatch_group_t g;
 
 static void cb(const volatile void *addr, unsigned size, int kind, int order, unsigned long long a, unsigned long long b,
 		int ok, const char *file, int line) {
-	(void)addr; (void)order; (void)a; (void)ok; (void)file; (void)line;
-	if (in_leave == 1 && kind == DV_ADD && size == 8 && b == 4) {
+	dv_cb(addr, size, kind, order, a, b, ok, file, line);
+	if (in_leave == 1 && kind == DV_ADD && size == 8 && b == 4 && addr == (const volatile void *)&g->dg_state) {
 		in_leave = 2;
 		atomic_store(&l_added, 1);
-		for (int i = 0; i < 3000000 && !atomic_load(&b_registered); i++) sched_yield();   // hold the leaver here
+		while (!atomic_load(&b_registered)) sched_yield();      // hold the leaver here (no time limit: bounded by main)
 	}
 }
-static void fa(void *c) { (void)c; atomic_store(&a_ran, 1); }
-static void fb(void *c) { (void)c; atomic_store(&b_ran_before_leave, atomic_load(&left_e) ? 0 : 1); atomic_store(&b_ran, 1); }
-static dispatch_group_t g;
-static void *leaver(void *x) { (void)x; in_leave = 1; dispatch_group_leave(g); in_leave = 0; return NULL; }
-static void *waiter(void *x) { (void)x; dispatch_group_wait(g, dispatch_time(DISPATCH_TIME_NOW, 300 * NSEC_PER_MSEC)); return NULL; }
+static void fa(void *c) {
+	(void)c; dv_user(DVU_CALLOUT_BEGIN, 0, OP_NOTIFY, 0); atomic_store(&a_ran, 1); dv_user(DVU_CALLOUT_END, 0, OP_NOTIFY, 0);
+}
+static void fb(void *c) {
+	(void)c; dv_user(DVU_CALLOUT_BEGIN, 0, OP_NOTIFY, 1);
+	atomic_store(&b_ran_before_leave, atomic_load(&left_e) ? 0 : 1); atomic_store(&b_ran, 1);
+	dv_user(DVU_CALLOUT_END, 0, OP_NOTIFY, 1);
+}
+static void do_enter(void) { dv_user(DVU_CALL, 0, OP_ENTER, 0); dispatch_group_enter(g); dv_user(DVU_RET, 0, 0, 0); }
+static void do_leave(void) { dv_user(DVU_CALL, 0, OP_LEAVE, 0); dispatch_group_leave(g); dv_user(DVU_RET, 0, 0, 0); }
+static void do_notify(dispatch_queue_t nq, long id, dispatch_function_t f) {
+	dv_user(DVU_CALL, 0, OP_NOTIFY, (unsigned long long)id); dispatch_group_notify_f(g, nq, NULL, f); dv_user(DVU_RET, 0, 0, 0);
+}
+static void *leaver(void *x) { (void)x; in_leave = 1; do_leave(); in_leave = 0; return NULL; }
+static void *waiter(void *x) {
+	(void)x; dispatch_time_t tmo = dispatch_time(DISPATCH_TIME_NOW, 300 * NSEC_PER_MSEC);
+	dv_user(DVU_CALL, 0, OP_WAIT, (unsigned long long)tmo);
+	long rc = dispatch_group_wait(g, tmo);
+	dv_user(DVU_RET, 0, rc != 0, (unsigned long long)(dispatch_time(DISPATCH_TIME_NOW, 0) + 1000 >= tmo));
+	return NULL;
+}
 
 int main(int argc, char **argv) {
 	int variant = argc > 1 ? atoi(argv[1]) : 0;
 	g = dispatch_group_create();
 	dispatch_queue_t nq = dispatch_queue_create("c07.notify", NULL);
+	int base_refs = *(volatile int *)&g->do_ref_cnt;
+	dv_install(1, 0); _dispatch_verif_cb = cb;
+	dv_track(&g->dg_state, 24, 0);
+	dv_track(&((dispatch_lane_t)nq)->dq_items_tail, sizeof(void *), 100000);
+	printf("R 0 9 3\n");
 	pthread_t tl, tw;
-	dispatch_group_enter(g);                                   // generation 1: one unit of work
-	if (variant == 0) dispatch_group_notify_f(g, nq, NULL, fa);   // A waits for generation 1 (sets HAS_NOTIFS)
-	else { pthread_create(&tw, NULL, waiter, NULL); usleep(50000); }  // a waiter sets HAS_WAITERS
-	_dispatch_verif_cb = cb;
+	do_enter();                                                // generation 1: one unit of work
+	if (variant == 0) do_notify(nq, 0, fa);                    // A waits for generation 1 (sets HAS_NOTIFS)
+	else {                                                     // a waiter sets HAS_WAITERS: wait until the bit is in the word
+		pthread_create(&tw, NULL, waiter, NULL);
+		while (!((*(volatile uint64_t *)&g->dg_state) & DISPATCH_GROUP_HAS_WAITERS)) sched_yield();
+	}
 	pthread_create(&tl, NULL, leaver, NULL);                  // last leave of generation 1 ...
 	while (!atomic_load(&l_added)) sched_yield();             // ... held right after its atomic add (count is now 0)
-	dispatch_group_enter(g);                                   // generation 2 begins: E
-	dispatch_group_notify_f(g, nq, NULL, fb);                  // B must wait for E
+	do_enter();                                                // generation 2 begins: E
+	do_notify(nq, 1, fb);                                      // B must wait for E
 	atomic_store(&b_registered, 1);
 	pthread_join(tl, NULL);
-	for (int i = 0; i < 400 && !atomic_load(&b_ran); i++) usleep(1000);   // E is still outstanding during this time
+	// E is still outstanding: B must not run.  The leaver has returned, so whatever it detached has been submitted to nq;
+	// wait until nq is idle again (nothing queued, not enqueued, not being drained): no time window decides the verdict
+	for (;;) {
+		uint64_t qs = *(volatile uint64_t *)&((dispatch_lane_t)nq)->dq_state;
+		if (*(void *volatile *)&((dispatch_lane_t)nq)->dq_items_tail == NULL && !_dq_state_drain_locked(qs) &&
+				!_dq_state_is_enqueued(qs)) break;
+		usleep(200);
+	}
 	int early = atomic_load(&b_ran);
 	atomic_store(&left_e, 1);
-	dispatch_group_leave(g);                                   // E leaves only now
-	for (int i = 0; i < 400 && !atomic_load(&b_ran); i++) usleep(1000);
+	do_leave();                                                // E leaves only now
+	while (!atomic_load(&b_ran)) usleep(500);                  // B runs at the latest now (a hang here is caught by the caller's limit)
+	if (variant == 0) while (!atomic_load(&a_ran)) usleep(500);
 	if (variant == 1) pthread_join(tw, NULL);
-	_dispatch_verif_cb = NULL;
+	while (*(volatile int *)&g->do_ref_cnt != base_refs) usleep(500);     // every wake has finished: the record is complete
 	printf("EARLY %d %d\n", variant, early);
 	printf("detail: A ran=%d, B ran=%d, B ran before the leave matching its preceding enter=%d\n", atomic_load(&a_ran),
 			atomic_load(&b_ran), atomic_load(&b_ran_before_leave));
+	printf("Q 0 %llu 2\n", (unsigned long long)(*(volatile uint64_t *)&g->dg_state));
+	dv_user(DVU_MARK, 0, 99, 0);
+	dv_dump(stdout);
 	return 0;
 }
